@@ -149,6 +149,7 @@ func main() {
 			fargs = fargs[2:]
 			props := map[string]*PropConfig{}
 			if err := loadJSON(filepath.Join(verifDir, "props.json"), &props); err == nil && props[onlyProp] != nil {
+				NeutralizeUnbacked(w, props, onlyProp)
 				ApplySchemas(w, props[onlyProp].Schemas, onlyProp)
 			}
 		}
